@@ -1,5 +1,5 @@
 import RtenVerif.Driver.Util
-import RtenVerif.Model.Bpe
+import RtenVerif.Model.BpeEncode
 
 /-!
 Line protocol for C28.
@@ -7,7 +7,8 @@ Line protocol for C28.
 * `bpe V=<auto|tok:id,…> A=<alphabet> E=<suffix|-> M=<a+b,…|-> P=<piece,piece,…>`
   builds the tokenizer as `Bpe::new` does (auto = `build_vocab`, otherwise the supplied
   vocabulary; `A` = the single-byte tokens whose presence `Bpe::new` checks among those the
-  harness did not add itself), then encodes every piece. `%` denotes the empty string.
+  harness did not add itself, `-` = none), then encodes every piece (`X=<hex,…>` instead of `P=`
+  gives the pieces as hex bytes; `I=1` sets `ignore_merges`). `%` denotes the empty string.
   Answer: `ids=1,2;3;…` (one `;`-separated group per piece) | `err:merge` | `err:vocab`.
 * `mrg M=<first.second.rank.merged,…|-> T=<id,id,…|->` runs `bpe_merge` on an explicit merge map.
   Answer: `ids=…`.
@@ -33,29 +34,60 @@ def parseVocab (s : String) : Option Vocab :=
     | [a, b] => b.toNat?.map (fun i => (tok a, i))
     | _ => none)
 
-def printable : List Char := (List.range 94).map (fun i => Char.ofNat (33 + i))
+def hexVal (c : Char) : Option Nat :=
+  if '0' ≤ c ∧ c ≤ '9' then some (c.toNat - 48)
+  else if 'a' ≤ c ∧ c ≤ 'f' then some (c.toNat - 87) else none
+
+def parseHex : List Char → Option (List Nat)
+  | [] => some []
+  | [_] => none
+  | h :: l :: rest => do
+    let a ← hexVal h
+    let b ← hexVal l
+    let r ← parseHex rest
+    pure ((a * 16 + b) :: r)
+
+/-- Pieces as byte lists: `X=` hex-encoded (any bytes) or `P=` plain (UTF-8 bytes of the text). -/
+def parsePieces (ws : List String) : Option (List (List Nat)) :=
+  match field ws "X" with
+  | some xS => (if xS.isEmpty then [""] else xS.splitOn ",").mapM (fun h => parseHex (tok h).toList)
+  | none =>
+    match field ws "P" with
+    | some pS =>
+      some ((if pS.isEmpty then [""] else pS.splitOn ",").map (fun p => (tok p).toUTF8.toList.map (·.toNat)))
+    | none => none
 
 def handleBpe (ws : List String) : String :=
-  match field ws "V", field ws "A", field ws "E", field ws "M", field ws "P" with
-  | some vS, some aS, some eS, some mS, some pS =>
+  match field ws "V", field ws "A", field ws "E", field ws "M", parsePieces ws with
+  | some vS, some aS, some eS, some mS, some pieces =>
     match parseMerges mS with
     | none => "bad-request"
     | some merges =>
       let eow : Option String := if eS == "-" then none else some eS
-      let vc? : Option Vocab := if vS == "auto" then some (buildVocabAuto printable merges eow) else parseVocab vS
+      let ign : Bool := field ws "I" == some "1"
+      let vc? : Option Vocab := if vS == "auto" then some (buildVocabFull merges eow) else parseVocab vS
       match vc? with
       | none => "bad-request"
       | some vc =>
         match buildMergeMap (vDom vc) (vId vc) (· ++ ·) merges with
         | .error _ => "err:merge"
         | .ok m =>
-          if aS.toList.any (fun c => !(vDom vc (String.singleton c))) then "err:vocab" else
-          let pieces := if pS.isEmpty then [""] else (pS.splitOn ",").map tok
+          if aS != "-" && aS.toList.any (fun c => !(vDom vc (String.singleton c))) then "err:vocab" else
           let outs := pieces.map (fun p =>
-            if p.isEmpty then some [] else encodePiece vc m eow p)
+            if p.isEmpty then some [] else encodePieceBytes vc m eow ign p)
           if outs.any Option.isNone then "skip" else
           "ids=" ++ joinWith ";" (outs.map (fun o => showNats "," (o.getD [])))
   | _, _, _, _, _ => "bad-request"
+
+/-- `tbl`: the 256 code points of `byte_to_char()`; `rank`: for id 0..255 the code point of the
+single-byte token with that id in a vocabulary built by `build_vocab`. -/
+def handleTbl : String := "cps=" ++ showNats "," ((List.range 256).map byteCp)
+
+def handleRank : String :=
+  "cps=" ++ showNats "," ((List.range 256).map (fun id =>
+    match (List.range 256).find? (fun b => byteRank b == id) with
+    | some b => byteCp b
+    | none => 0))
 
 def parseQuad (e : String) : Option ((Nat × Nat) × (Nat × Nat)) :=
   match (e.splitOn ".").mapM String.toNat? with
@@ -74,6 +106,8 @@ def handle (line : String) : String :=
   match words line with
   | "bpe" :: ws => handleBpe ws
   | "mrg" :: ws => handleMrg ws
+  | ["tbl"] => handleTbl
+  | ["rank"] => handleRank
   | _ => "bad-request"
 
 end RtenVerif.Driver.C28
